@@ -105,3 +105,22 @@ void drv_c19_stats(int tier, unsigned long seed, const char *extra) {
     priv_begin(); gmp_randclear(st); mpz_clear(a); mpz_clear(z); priv_end();
   }
 }
+
+/* the obsolete generators that draw from the library's global state (mpn_random, mpn_random2, mpf_random2): same range / format contracts as their
+   replacements.  The global state is initialised by one private call first, so that the recorded calls only advance it. */
+void drv_c19_old(int tier, unsigned long seed, const char *extra) {
+  shard_t sh = shard_parse(extra); long x = 0; int rep, j;
+  { mp_limb_t t[2]; priv_begin(); mpn_random(t, 1); priv_end(); }
+  for (rep = 0; rep < (sh.pure ? 2 : (tier ? 60 : 16)); rep++) { mp_size_t n;
+    x++; if (!MINE(sh, x)) continue;
+    rec_reset("c19_old", x, seed);
+    for (n = 1; n <= (sh.pure ? 3 : 40); n += (n < 6 ? 1 : 5)) { mp_ptr r = gb_get(0, n, rep & 1);
+      fn_begin("mpn_random"); fn_in_int("n", n); fn_mid(); gb_fill(r, n); priv_begin(); mpn_random(r, n); priv_end(); fn_out_limbs("r", r, n); fn_end();
+      fn_begin("mpn_random2"); fn_in_int("n", n); fn_mid(); gb_fill(r, n); priv_begin(); mpn_random2(r, n); priv_end(); fn_out_limbs("r", r, n); fn_end(); }
+    for (j = 0; j < 3; j++) callf("mpf_init2", j, (uint64_t)(64 + 64 * j * 3));
+    for (j = 0; j < (sh.pure ? 6 : 40); j++) { callf("mpf_random2", j % 3, (int64_t)((long)rnd_below(31) - 15), (int64_t)rnd_below(25)); if (!sh.pure) callf("mpf_get_d", j % 3); }
+    callf("mpf_random2", 0, (int64_t)0, (int64_t)5); callf("mpf_random2", 1, (int64_t)-300, (int64_t)0); callf("mpf_random2", 2, (int64_t)300, (int64_t)1);
+    for (j = 0; j < 3; j++) callf("mpf_clear", j);
+    rec_quiesce();
+  }
+}
